@@ -27,6 +27,9 @@ func (a *A) C07() {
 	a.dupEdge()
 	a.discOnLoadedQueue()
 	a.discTestUnconditional()
+	// what the parsers read of a unit is what its own packets carried: the pooled buffer is sized by the payload lengths of
+	// this group and filled completely (R8 of C02) — anything beyond is the residue of another PID's unit
+	a.assembledPayload()
 	// a unit of one PID that fails to parse at the end of the stream must not keep the pending units of the other PIDs
 	// from being delivered: the drain rule of C02 (every dumped group is parsed, the end is reported only after an
 	// empty dump)
